@@ -193,6 +193,9 @@ class World:
             return v
         if spec.get('special') == 'stream':
             return _Null()
+        if spec.get('special') == 'dtype':
+            return {'float64': np.float64, 'float32': np.float32, 'int64': np.int64,
+                    'object': None}.get(spec.get('name'), np.float64)
         if spec.get('special') == 'slice':
             return slice(spec.get('start'), spec.get('stop'), spec.get('step'))
         raise core.HarnessError('bad arg spec %r' % (spec,))
@@ -687,6 +690,8 @@ def kind_category(kind):
     """Coarse Python-type category of the values a kind produces."""
     if kind in ('unit', 'order', 'orient', 'out', 'str', 'fmt', 'color'):
         return 'str'
+    if kind == 'dtype':
+        return 'dtype'
     if kind == 'stream':
         return 'stream'
     if kind == 'none':
@@ -786,6 +791,8 @@ def make_spec(kind, world, cfg, rng, recv_cls, recv_ref=None):
         return {'lit': rng.choice([1e-9, 1e-6])}
     if kind == 'stream':
         return {'special': 'stream'}
+    if kind == 'dtype':
+        return {'special': 'dtype', 'name': rng.choice(['float64', 'float32', 'int64', 'object'])}
     if kind == 'false':
         return {'lit': False}
     if kind == 'color':
